@@ -126,8 +126,15 @@ def check_stream(sources, opts, M, case):
     M.count("streams_checked")
     ge = GherkinEvents(GherkinEvents.Options(*opts))
     drawn = 0
+    import copy
+    held = []
     with probe.observing(ids=True) as obs:
         for n, text in enumerate(sources):
+            for envs_, snap in held:
+                if envs_ != snap:
+                    M.violation("C17.stream", {"what": "envelopes yielded for an earlier source were modified while a later source was processed",
+                                               "position": n}, case)
+                    return
             uri = "features/s%d.feature" % n
             before = sum(1 for d in obs.ids if d[2] == id(ge.id_generator))
             st, envs, opened, _ = observe.enum_observed(text, uri=uri, events=ge)
@@ -141,6 +148,7 @@ def check_stream(sources, opts, M, case):
                 want = ([src] if opts[0] else []) + ([{"gherkinDocument": doc}] if opts[1] else []) + ([{"pickle": p} for p in pickles] if opts[2] else [])
             else:
                 want = ref
+            held.append((envs, copy.deepcopy(envs)))
             if envs != want:
                 M.violation("C17.stream", {"what": "envelopes of a source inside a stream differ from its solo envelopes shifted by the ids drawn before it",
                                            "position": n, "ids_drawn_before": before, "got": short(envs, 300), "want": short(want, 300)}, case)
